@@ -20,7 +20,8 @@ EXPLANATION = (
     "never compared (order or equality) without case folding; (R10) every parser function that recognises the end of a line as the end of something recognises a colon too, or is tabled with the reason a colon is no alternative there; (R11) no token rule of the lexer raises a fatal error, because the lexer also tokenises comment and string text; (R12) every use of the one-token end-of-statement lookahead skips optional blanks first; (R13) the guard of the CR LF look-ahead in create_row_col_view is exactly `the next character exists` (not stronger); (R14) the parenthesis-only parser is used by the list of primary expressions only, so an operand that starts with `(` directly after a keyword is still a whole expression; (R15) every parser that consumes a line end as a separator is followed by the repetition that skips blank lines and indentation; (R16) the label parser accepts the name and the colon only when adjacent (no optional part before the colon in its combinator type), so `Name : Next` stays a call followed by a separator; (R17) only the functions the Eol token is made of, and the row/column table, contain a CR or LF character constant - nothing else decides where a line ends."
     " (R2, extended) the scan for case-sensitive text comparisons includes the crate of the case-insensitive string type itself."
     " (R18) no set or map of the front end and the VM is keyed by raw text (`&str` / `String`); (R19) the characters that may follow a keyword include the lexer's blank class and both line-end characters (truth tables over ASCII)."
-    " (R20) every parser made from a token class that contains ':' is followed through the combinators and functions it is handed to until it stands behind optional blanks; in a sequence or delimited list it never follows a parser that does not skip them (the label parser, where the colon is adjacent, excepted).")
+    " (R20) every parser made from a token class that contains ':' is followed through the combinators and functions it is handed to until it stands behind optional blanks; in a sequence or delimited list it never follows a parser that does not skip them (the label parser, where the colon is adjacent, excepted)."
+    " (R21) the text of a string literal - the middle of the surround whose delimiters are the quote parser - accepts neither the quote nor the end of a line (an Exclude token class holding Eol and the quote, or a character predicate tabulated over ASCII): an unclosed literal does not run on into the following lines.")
 NOT_DECIDED = [
     "equality of parse trees under layout transformations (blanks, comments, colon vs newline)",
     "row counting in create_row_col_view beyond the CR / LF guards and the tightness of the CR LF look-ahead guard (R13)",
@@ -1037,6 +1038,83 @@ def r20_colon_separator_follows_optional_blanks(ctx, rule="C09.R20"):
     ctx.require(rule, 8)
 
 
+def r21_string_literal_ends_on_its_line(ctx, rule="C09.R21"):
+    """A string literal ends at its closing quote *on the same line*: the parser of the literal's text - the middle of
+    the `surround` whose two delimiters are the quote parser - accepts neither the quote nor the end of a line.  Then an
+    unclosed literal is reported in the line that has it; a text parser that runs over the line end swallows the
+    following lines up to the next quote anywhere in the file, and the error surfaces in a later, correct line (or the
+    program means something else).  Two spellings are decided: a token class in Exclude mode (Eol and the quote have to
+    be in it), and a character predicate (tabulated over ASCII: quote, CR and LF are rejected)."""
+    prog = ctx.prog
+    from .. import charpred
+    sites = []
+    for f in prog.fns.values():
+        if f.crate != "rusty_parser" or f.kind == "const":
+            continue
+        pv = None
+        for _b, t in f.body.calls():
+            if mir.callee_path(t).split("::")[-1] != "surround" or len(t["args"]) < 3:
+                continue
+            pv = pv or mir.Prov(f.body)
+            makers = []
+            for a in t["args"][:3]:
+                o = mir.strip_refs(pv.of_operand(a))
+                g = None
+                if o[0] == "call":
+                    g = prog.fns.get(o[1]) if isinstance(o[1], str) else None
+                makers.append((o, g))
+            if makers[0][1] is None or makers[2][1] is None or makers[1][1] is None:
+                continue
+            if makers[0][1].id != makers[2][1].id:
+                continue
+            _tt, chars = _fn_consts(makers[0][1])
+            if chars == {'"'}:
+                sites.append((f, makers[1][1]))
+    if not sites:
+        raise CheckError("%s: no `surround(quote, text, quote)` found in the parser" % rule)
+    eng = charpred.engine(prog)
+    for f, g in sites:
+        key = "%s:%s" % (rule, g.path.split("::", 1)[1])
+        bodies = [g] + prog.closures_of(g)
+        exclude = any(st["k"] == "assign" and st["r"].get("k") == "agg" and (st["r"].get("adt") or "").endswith("::MatchMode")
+                      and st["r"].get("variant") == "Exclude" for h in bodies for blk in h.body.blocks for st in blk["s"])
+        if exclude:
+            tt, chars = set(), set()
+            for h in bodies:
+                a, b = _fn_consts(h)
+                tt |= a
+                chars |= b
+            ctx.decide("Eol" in tt and '"' in chars, rule, key, g.loc, "text = any token but Eol and the quote",
+                       "the text of a string literal is any token except %s / %s: %s" % (
+                           sorted(tt), sorted(chars),
+                           "the end of a line is part of the text, so an unclosed literal runs on into the following lines"
+                           if "Eol" not in tt else "the quote is part of the text"))
+            continue
+        preds = []
+        for h in bodies:
+            for _b, t in h.body.calls():
+                if mir.callee_path(t).split("::")[-1] in ("filter", "filter_map", "read_if", "take_while") and len(t["args"]) >= 2:
+                    pr = charpred.pred_of_operand(prog, h, t["args"][-1])
+                    if pr is not None:
+                        preds.append(pr)
+        if len(preds) != 1:
+            ctx.unknown(rule, key, g.loc, "the text parser of a string literal is neither an Exclude token class nor one "
+                        "character predicate (%d predicates)" % len(preds))
+            continue
+        acc, und = charpred.accepted(eng, prog, preds[0])
+        if und & {10, 13, 34}:
+            ctx.unknown(rule, key, g.loc, "the character predicate is not evaluated at the quote / CR / LF")
+            continue
+        bad = sorted(acc & {10, 13, 34})
+        ctx.decide(not bad, rule, key, g.loc, "the predicate rejects the quote, CR and LF",
+                   "the character predicate of a string literal's text accepts %s: %s" % (
+                       [{10: "LF", 13: "CR", 34: "the quote"}[c] for c in bad],
+                       "an unclosed literal runs over the end of its line into the following lines, and the syntax error is "
+                       "reported in a later, correct line" if set(bad) & {10, 13} else "the literal never ends"))
+    ctx.analysed_units(rule, literals=[g.path.split("::", 1)[1] for _f, g in sites])
+    ctx.require(rule, 1, max_unknown=1)
+
+
 def run(ctx):
     common.install(ctx)
     r1_folding_pair(ctx)
@@ -1061,3 +1139,4 @@ def run(ctx):
     r18_no_container_keyed_by_raw_text(ctx)
     r19_a_keyword_ends_at_any_blank(ctx)
     r20_colon_separator_follows_optional_blanks(ctx)
+    r21_string_literal_ends_on_its_line(ctx)
